@@ -16,8 +16,11 @@
 (*  Framer:   control x status table of the runner; enterAll / exitAll / segue / recur;          *)
 (*            transitions (go) with entry guards; plain and conditional auxiliaries; bids;      *)
 (*            done; elapsed / recurred clocks.                                                  *)
+(*  Needs:    comparison conditions with tolerance, share-valued goals, numbers / strings /      *)
+(*            booleans and truthiness (C21, operator Check of FloNeeds.tla); `is updated` /      *)
+(*            `is changed` conditions over share stamps and marks (C20).                         *)
 (* The recursive procedures of a framer run are flattened into the work list `todo`.            *)
-EXTENDS Integers, Sequences, FiniteSets, TLC
+EXTENDS Integers, Sequences, FiniteSets, TLC, FloNeeds
 
 VARIABLES
     prog,      \* the program (immutable)
@@ -29,14 +32,17 @@ VARIABLES
     more,      \* some tasker was started/running in this tick
     cur,       \* tasker being dispatched by the skedder ("" none)
     fs,        \* framer name -> run-time record
-    store,     \* share name -> value
+    store,     \* share name -> value (field `value`; an int in units of 1/Scale, a string or a boolean)
+    stamps,    \* watched share -> store time of its last update (-1: not updated since the build)
+    xstore,    \* watched share -> its second field [has, v] (absent until another field is put into the share or written from outside)
+    marks,     \* mark id <<kind, share, framer, key>> -> [es, ts, set, val, x]   (C20)
     todo,      \* work list of micro operations (head first)
     entered,   \* frame key -> number of enters minus exits (history, for bracketing)
     crashed,   \* "" | "error" | "interrupt": why the loop was left
     sweeps,    \* tasker -> number of aborts sent by the final sweep (history)
     lab        \* label of the last step (observation)
 
-vars == <<prog, phase, now, tickn, pending, ready, more, cur, fs, store, todo, entered, crashed, sweeps, lab>>
+vars == <<prog, phase, now, tickn, pending, ready, more, cur, fs, store, stamps, xstore, marks, todo, entered, crashed, sweeps, lab>>
 
 Silent == [k |-> "silent"]
 
@@ -76,11 +82,26 @@ Cmp(a, op, b) == CASE op = "==" -> a = b [] op = "!=" -> a # b [] op = "<" -> a 
                    [] op = "<=" -> a <= b [] op = ">=" -> a >= b [] op = ">" -> a > b
 
 AuxesOf(k) == Fr(k).auxes
+
+\* numbers in the store are integers in units of 1/Scale (a program with Scale = 2 has halves)
+Scale == IF "scale" \in DOMAIN prog THEN prog.scale ELSE 1
+\* quanta per store unit: converts a share holding seconds into the quanta of the framer clocks
+Qpu == IF "qpu" \in DOMAIN prog THEN prog.qpu ELSE 16
+
+\* C21: `state <op> goal [+- tol]`, state = a share or a framer clock, goal = a literal or a share
+CheckState(f, n) == CASE n.src = "share"    -> [t |-> n.st, v |-> store[n.share]]
+                      [] n.src = "elapsed"  -> Num(fs[f].elapsed)                 \* quanta
+                      [] n.src = "recurred" -> Num(fs[f].recurred * Scale)
+CheckGoal(n) == IF n.gk = "lit" THEN [t |-> n.gt, v |-> n.goal]
+                ELSE [t |-> n.gt, v |-> IF n.src = "elapsed" THEN store[n.goal] * Qpu ELSE store[n.goal]]
+
 NeedRaw(f, n) ==
     CASE n.k = "always"   -> TRUE
       [] n.k = "cmp"      -> Cmp(store[n.share], n.op, n.goal)
       [] n.k = "cmpshare" -> Cmp(store[n.share], n.op, store[n.goal])
       [] n.k = "bool"     -> store[n.share] # 0
+      [] n.k = "check"    -> Check(CheckState(f, n), n.op, CheckGoal(n), n.tol)
+      [] n.k = "truthy"   -> Truthy([t |-> n.st, v |-> store[n.share]])
       [] n.k = "elapsed"  -> Cmp(fs[f].elapsed, n.op, n.goal)
       [] n.k = "recurred" -> Cmp(fs[f].recurred, n.op, n.goal)
       [] n.k = "done"     -> fs[n.who].done
@@ -91,6 +112,70 @@ NeedRaw(f, n) ==
                              ELSE fs[n.mode].done
 Need(f, n) == IF n.neg THEN ~NeedRaw(f, n) ELSE NeedRaw(f, n)
 AllNeeds(f, ns) == \A i \in 1..Len(ns) : Need(f, ns[i])
+
+(* ---- C20: `share is updated|changed [in frame F] [by marker]` on a transition ---------------- *)
+(* A mark belongs to a share and is named, within its framer, by the `by` marker or else by the  *)
+(* frame (the named frame of the `in frame` form, else the frame of the transition).  It is set  *)
+(*   - on entry to the named frame, before the frame's enter actions (only the `in frame` form), *)
+(*   - whenever a transition guarded by it is taken (transit sub-context).                       *)
+(* `updated`: the share was updated after the mark was last set; an update in the same tick as   *)
+(* an entry reset counts, one in the same tick as a taken-transition reset does not; before the  *)
+(* mark is first set any update counts.  (When both kinds of reset happened in the tick of the   *)
+(* update the two clauses pull in opposite directions: either answer is admitted.)               *)
+(* `changed`: some field differs from (or was added since) the snapshot taken at those moments;  *)
+(* true before the first snapshot.                                                               *)
+IsMarkNeed(n) == n.k \in {"updated", "changed"}
+MarkKey(k, n) == IF n.by # "" THEN n.by ELSE Fr(IF n.frame # "" THEN n.frame ELSE k).name
+MarkId(k, n) == <<n.k, n.share, Fr(k).framer, MarkKey(k, n)>>
+\* every use of a marker condition: [k: frame of the transition, n: the need]
+MarkUses == UNION {UNION {{[k |-> k, n |-> Fr(k).precur[j].needs[i]] :
+                              i \in {i \in 1..Len(Fr(k).precur[j].needs) : IsMarkNeed(Fr(k).precur[j].needs[i])}} :
+                          j \in {j \in 1..Len(Fr(k).precur) : Fr(k).precur[j].k = "go"}} : k \in FrameKeys}
+MarkIds == {MarkId(u.k, u.n) : u \in MarkUses}
+NoMark == [es |-> -1, ts |-> -1, set |-> FALSE, val |-> 0, x |-> [has |-> FALSE, v |-> 0]]
+\* the marks set on entry to frame k
+EntryMarkIds(k) == {MarkId(u.k, u.n) : u \in {u \in MarkUses : u.n.frame = k}}
+Watched == DOMAIN stamps
+
+SetMark(m, id, how) ==
+    IF id[1] = "updated" THEN (IF how = "entry" THEN [m EXCEPT !.es = now] ELSE [m EXCEPT !.ts = now])
+    ELSE [m EXCEPT !.set = TRUE, !.val = store[id[2]], !.x = xstore[id[2]]]
+ResetMarks(ids, how) == [id \in DOMAIN marks |-> IF id \in ids THEN SetMark(marks[id], id, how) ELSE marks[id]]
+
+Max2(a, b) == IF a >= b THEN a ELSE b
+\* which case of the statement decides an `updated` condition (also names the vacuity guards)
+UpdatedCase(id) ==
+    LET st == stamps[id[2]]  m == marks[id]  ms == Max2(m.es, m.ts) IN
+    IF st = -1 THEN "never"                 \* not updated at all since the build
+    ELSE IF ms = -1 THEN "first"            \* mark not yet set: any update counts
+    ELSE IF st > ms THEN "later"
+    ELSE IF st < ms THEN "earlier"
+    ELSE IF m.ts # ms THEN "entry"          \* same tick as an entry reset only: counts
+    ELSE IF m.es # ms THEN "transit"        \* same tick as a taken-transition reset only: does not
+    ELSE "both"
+UpdatedOut(id) == LET c == UpdatedCase(id) IN
+    IF c \in {"first", "later", "entry"} THEN {TRUE} ELSE IF c = "both" THEN BOOLEAN ELSE {FALSE}
+ChangedCase(id) == LET m == marks[id] IN
+    IF ~m.set THEN "nosnap"                               \* true before the first snapshot
+    ELSE IF store[id[2]] # m.val THEN "differs"           \* a field value differs from the snapshot
+    ELSE IF xstore[id[2]].has /\ ~m.x.has THEN "added"    \* a field was added since the snapshot
+    ELSE IF xstore[id[2]] # m.x THEN "differs" ELSE "same"
+ChangedOut(id) == {ChangedCase(id) # "same"}
+
+\* admissible truth values of one clause / of a conjunction evaluated for the transition act of frame k
+NeedOut(f, k, n) == LET r == IF n.k = "updated" THEN UpdatedOut(MarkId(k, n))
+                             ELSE IF n.k = "changed" THEN ChangedOut(MarkId(k, n)) ELSE {NeedRaw(f, n)} IN
+                    IF n.neg THEN {~b : b \in r} ELSE r
+NeedsOut(f, k, ns) == {b \in BOOLEAN : \/ b /\ \A i \in 1..Len(ns) : TRUE \in NeedOut(f, k, ns[i])
+                                       \/ ~b /\ \E i \in 1..Len(ns) : FALSE \in NeedOut(f, k, ns[i])}
+MarkIdsIn(k, ns) == {MarkId(k, ns[i]) : i \in {i \in 1..Len(ns) : IsMarkNeed(ns[i])}}
+\* case tag of a transition act: the deciding case of its first marker condition ("plain": it has none)
+GoCase(k, a) ==
+    IF a.k # "go" THEN "plain"
+    ELSE LET idx == {i \in 1..Len(a.needs) : IsMarkNeed(a.needs[i])} IN
+         IF idx = {} THEN "plain"
+         ELSE LET n == a.needs[CHOOSE i \in idx : \A j \in idx : i <= j]  id == MarkId(k, n) IN
+              IF n.k = "updated" THEN UpdatedCase(id) ELSE ChangedCase(id)
 
 \* Entry guards.  A frame may be entered iff its before-enter conditions hold, none of its
 \* auxiliaries is owned by a frame that is not being exited, and every auxiliary could start.
@@ -147,6 +232,9 @@ Init ==
                 period |-> prog.framers[f].period, done |-> TRUE, active |-> "", actives |-> <<>>,
                 fstamp |-> 0, elapsed |-> 0, recurred |-> 0, main |-> ""]]
     /\ store = prog.shares
+    /\ stamps = [s \in {id[2] : id \in MarkIds} |-> -1]
+    /\ xstore = [s \in {id[2] : id \in MarkIds} |-> NoMark.x]
+    /\ marks = [id \in MarkIds |-> NoMark]
     /\ todo = <<>>
     /\ entered = [k \in FrameKeys |-> 0]
     /\ crashed = ""
@@ -160,7 +248,7 @@ StartRun ==
     /\ pending' = [i \in 1..Len(prog.order) |-> Entry(prog.order[i], 0, prog.framers[prog.order[i]].period)]
     /\ ready' = <<>> /\ more' = FALSE
     /\ lab' = [k |-> "Tick", n |-> 0, now |-> 0]
-    /\ UNCHANGED <<prog, now, tickn, cur, fs, store, todo, entered, crashed, sweeps>>
+    /\ UNCHANGED <<stamps, xstore, marks, prog, now, tickn, cur, fs, store, todo, entered, crashed, sweeps>>
 
 \* next entry of this tick: not yet due -> requeued as is; due -> sent its current desire
 Dispatch ==
@@ -177,7 +265,7 @@ Dispatch ==
                /\ cur' = e.t
                /\ UNCHANGED <<ready, more>>
     /\ lab' = Silent
-    /\ UNCHANGED <<prog, phase, now, tickn, fs, store, entered, crashed, sweeps>>
+    /\ UNCHANGED <<stamps, xstore, marks, prog, phase, now, tickn, fs, store, entered, crashed, sweeps>>
 
 Requeue ==
     /\ todo # <<>> /\ H.op = "requeue"
@@ -188,7 +276,7 @@ Requeue ==
        /\ more' = (more \/ Running(t))
     /\ Pop /\ cur' = ""
     /\ lab' = Silent
-    /\ UNCHANGED <<prog, phase, now, tickn, pending, fs, store, entered, crashed, sweeps>>
+    /\ UNCHANGED <<stamps, xstore, marks, prog, phase, now, tickn, pending, fs, store, entered, crashed, sweeps>>
 
 \* all entries seen: the run goes on only if something is scheduled and something started/runs
 EndTick ==
@@ -197,28 +285,42 @@ EndTick ==
        THEN phase' = "sweep" /\ pending' = ready /\ ready' = <<>>
        ELSE phase' = "between" /\ UNCHANGED <<pending, ready>>
     /\ lab' = Silent
-    /\ UNCHANGED <<prog, now, tickn, more, cur, fs, store, todo, entered, crashed, sweeps>>
+    /\ UNCHANGED <<stamps, xstore, marks, prog, now, tickn, more, cur, fs, store, todo, entered, crashed, sweeps>>
+
+\* a write of a share stamps it with the store time, whether or not the value differs
+Stamped(S) == [s \in DOMAIN stamps |-> IF s \in S THEN now ELSE stamps[s]]
 
 \* environment between ticks: an input share is written from outside
 EnvSet(s, v) ==
     /\ phase = "between"
     /\ store' = [store EXCEPT ![s] = v]
+    /\ stamps' = Stamped({s})
     /\ lab' = [k |-> "Env", share |-> s, val |-> v]
-    /\ UNCHANGED <<prog, phase, now, tickn, pending, ready, more, cur, fs, todo, entered, crashed, sweeps>>
+    /\ UNCHANGED <<xstore, marks, prog, phase, now, tickn, pending, ready, more, cur, fs, todo, entered, crashed, sweeps>>
+
+\* environment between ticks: a field other than the share's data field is written from outside (it is added to the
+\* share if the share does not have it yet); only watched shares keep track of it
+EnvSetF(s, v) ==
+    /\ phase = "between"
+    /\ xstore' = [x \in DOMAIN xstore |-> IF x = s THEN [has |-> TRUE, v |-> v] ELSE xstore[x]]
+    /\ stamps' = Stamped({s})
+    /\ lab' = [k |-> "EnvF", share |-> s, val |-> v]
+    /\ UNCHANGED <<store, marks, prog, phase, now, tickn, pending, ready, more, cur, fs, todo, entered, crashed, sweeps>>
+FieldedShares == IF "fielded" \in DOMAIN prog THEN Range(prog.fielded) ELSE {}
 
 \* environment between ticks: keyboard interrupt
 Interrupt ==
     /\ phase = "between"
     /\ phase' = "sweep" /\ pending' = ready /\ ready' = <<>> /\ crashed' = "interrupt"
     /\ lab' = [k |-> "Interrupt"]
-    /\ UNCHANGED <<prog, now, tickn, more, cur, fs, store, todo, entered, sweeps>>
+    /\ UNCHANGED <<stamps, xstore, marks, prog, now, tickn, more, cur, fs, store, todo, entered, sweeps>>
 
 NextTick ==
     /\ phase = "between"
     /\ phase' = "tick" /\ now' = now + prog.tick /\ tickn' = tickn + 1
     /\ pending' = ready /\ ready' = <<>> /\ more' = FALSE
     /\ lab' = [k |-> "Tick", n |-> tickn + 1, now |-> now + prog.tick]
-    /\ UNCHANGED <<prog, cur, fs, store, todo, entered, crashed, sweeps>>
+    /\ UNCHANGED <<stamps, xstore, marks, prog, cur, fs, store, todo, entered, crashed, sweeps>>
 
 \* final sweep: exactly one abort to every tasker still scheduled
 Sweep ==
@@ -230,13 +332,13 @@ Sweep ==
        /\ sweeps' = [sweeps EXCEPT ![e.t] = @ + 1]
        /\ cur' = e.t
     /\ lab' = Silent
-    /\ UNCHANGED <<prog, phase, now, tickn, ready, more, fs, store, entered, crashed>>
+    /\ UNCHANGED <<stamps, xstore, marks, prog, phase, now, tickn, ready, more, fs, store, entered, crashed>>
 
 EndRun ==
     /\ phase = "sweep" /\ todo = <<>> /\ pending = <<>>
     /\ phase' = "end" /\ cur' = ""
     /\ lab' = [k |-> "End", reraised |-> (crashed = "error")]
-    /\ UNCHANGED <<prog, now, tickn, pending, ready, more, fs, store, todo, entered, crashed, sweeps>>
+    /\ UNCHANGED <<stamps, xstore, marks, prog, now, tickn, pending, ready, more, fs, store, todo, entered, crashed, sweeps>>
 
 (* ---- runner: control x status table (docstring of Framer / Tasker runners) ---- *)
 RunOp ==
@@ -278,21 +380,21 @@ RunOp ==
          [] st # "aborted" /\ ctl = "abort" /\ stopped ->
               SetF(t, [r EXCEPT !.status = "aborted", !.desire = "abort"]) /\ Pop
     /\ lab' = Silent
-    /\ UNCHANGED <<prog, phase, now, tickn, pending, ready, more, cur, store, entered, crashed, sweeps>>
+    /\ UNCHANGED <<stamps, xstore, marks, prog, phase, now, tickn, pending, ready, more, cur, store, entered, crashed, sweeps>>
 
 SetStatus ==
     /\ todo # <<>> /\ H.op \in {"setStatus", "setAborted"}
     /\ IF H.op = "setStatus" THEN SetF(H.f, [fs[H.f] EXCEPT !.status = H.s])
        ELSE SetF(H.f, [fs[H.f] EXCEPT !.status = "aborted", !.desire = "abort"])
     /\ Pop /\ lab' = Silent
-    /\ UNCHANGED <<prog, phase, now, tickn, pending, ready, more, cur, store, entered, crashed, sweeps>>
+    /\ UNCHANGED <<stamps, xstore, marks, prog, phase, now, tickn, pending, ready, more, cur, store, entered, crashed, sweeps>>
 
 \* the runner yields its status (observable)
 Yield ==
     /\ todo # <<>> /\ H.op = "yield"
     /\ Pop
     /\ lab' = [k |-> "Yield", t |-> H.t, ctl |-> H.ctl, top |-> H.top] @@ Proj(H.t)
-    /\ UNCHANGED <<prog, phase, now, tickn, pending, ready, more, cur, fs, store, entered, crashed, sweeps>>
+    /\ UNCHANGED <<stamps, xstore, marks, prog, phase, now, tickn, pending, ready, more, cur, fs, store, entered, crashed, sweeps>>
 
 (* ---- entering and exiting ---- *)
 EnterAll ==
@@ -301,7 +403,7 @@ EnterAll ==
        /\ SetF(f, [fs[f] EXCEPT !.done = FALSE, !.active = first, !.actives = Outline(first)])
        /\ Push(<< [op |-> "enterFrames", f |-> f, ks |-> Outline(first)] >>)
     /\ lab' = Silent
-    /\ UNCHANGED <<prog, phase, now, tickn, pending, ready, more, cur, store, entered, crashed, sweeps>>
+    /\ UNCHANGED <<stamps, xstore, marks, prog, phase, now, tickn, pending, ready, more, cur, store, entered, crashed, sweeps>>
 
 \* entering a non-empty list of frames restarts the framer's elapsed time and iteration count
 EnterFrames ==
@@ -310,9 +412,9 @@ EnterFrames ==
        /\ IF ks # <<>> THEN SetF(f, [fs[f] EXCEPT !.fstamp = now, !.elapsed = 0, !.recurred = 0]) ELSE UNCHANGED fs
        /\ Push([i \in 1..Len(ks) |-> [op |-> "enterFrame", f |-> f, k |-> ks[i]]])
     /\ lab' = Silent
-    /\ UNCHANGED <<prog, phase, now, tickn, pending, ready, more, cur, store, entered, crashed, sweeps>>
+    /\ UNCHANGED <<stamps, xstore, marks, prog, phase, now, tickn, pending, ready, more, cur, store, entered, crashed, sweeps>>
 
-\* a frame's enter actions, then its plain auxiliaries start at their first frame
+\* a frame's entry marks, its enter actions, then its plain auxiliaries start at their first frame
 EnterFrame ==
     /\ todo # <<>> /\ H.op = "enterFrame"
     /\ LET f == H.f  k == H.k  as == AuxesOf(k) IN
@@ -320,14 +422,16 @@ EnterFrame ==
                Flatten([i \in 1..Len(as) |-> << [op |-> "setMain", a |-> as[i], k |-> k],
                                                 [op |-> "enterAll", f |-> as[i]] >>]))
        /\ entered' = [entered EXCEPT ![k] = @ + 1]
+       \* the marks naming this frame (`in frame` form) are set first, before the enter actions
+       /\ marks' = IF DOMAIN marks = {} THEN marks ELSE ResetMarks(EntryMarkIds(k), "entry")
     /\ lab' = Silent
-    /\ UNCHANGED <<prog, phase, now, tickn, pending, ready, more, cur, fs, store, crashed, sweeps>>
+    /\ UNCHANGED <<stamps, xstore, prog, phase, now, tickn, pending, ready, more, cur, fs, store, crashed, sweeps>>
 
 SetMain ==
     /\ todo # <<>> /\ H.op = "setMain"
     /\ SetF(H.a, [fs[H.a] EXCEPT !.main = H.k])
     /\ Pop /\ lab' = Silent
-    /\ UNCHANGED <<prog, phase, now, tickn, pending, ready, more, cur, store, entered, crashed, sweeps>>
+    /\ UNCHANGED <<stamps, xstore, marks, prog, phase, now, tickn, pending, ready, more, cur, store, entered, crashed, sweeps>>
 
 \* exit every active frame bottom-up, then deactivate (abort = stop: the done flag is left alone)
 ExitAll ==
@@ -338,13 +442,13 @@ ExitAll ==
        Push([i \in 1..Len(ks) |-> [op |-> "exitFrame", f |-> f, k |-> ks[i]]] \o
             << [op |-> "deactivate", f |-> f, abort |-> H.abort] >>)
     /\ lab' = Silent
-    /\ UNCHANGED <<prog, phase, now, tickn, pending, ready, more, cur, fs, store, entered, crashed, sweeps>>
+    /\ UNCHANGED <<stamps, xstore, marks, prog, phase, now, tickn, pending, ready, more, cur, fs, store, entered, crashed, sweeps>>
 
 Deactivate ==
     /\ todo # <<>> /\ H.op = "deactivate"
     /\ SetF(H.f, [fs[H.f] EXCEPT !.active = "", !.actives = <<>>, !.done = (IF H.abort THEN @ ELSE TRUE)])
     /\ Pop /\ lab' = Silent
-    /\ UNCHANGED <<prog, phase, now, tickn, pending, ready, more, cur, store, entered, crashed, sweeps>>
+    /\ UNCHANGED <<stamps, xstore, marks, prog, phase, now, tickn, pending, ready, more, cur, store, entered, crashed, sweeps>>
 
 \* a frame's auxiliaries are exited first (and released), then its exit actions run.  A conditional
 \* auxiliary of the frame that is still running is exited with its main frame; whether that happens
@@ -366,7 +470,7 @@ ExitFrame(condFirst) ==
                             ELSE plain \o ActOps(f, k, "exit") \o cond)
        /\ entered' = [entered EXCEPT ![k] = @ - 1]
     /\ lab' = Silent
-    /\ UNCHANGED <<prog, phase, now, tickn, pending, ready, more, cur, fs, store, crashed, sweeps>>
+    /\ UNCHANGED <<stamps, xstore, marks, prog, phase, now, tickn, pending, ready, more, cur, fs, store, crashed, sweeps>>
 
 ForceExit ==
     /\ todo # <<>> /\ H.op = "forceExit"
@@ -374,13 +478,13 @@ ForceExit ==
        THEN Push(<< [op |-> "exitAll", f |-> H.x, abort |-> FALSE], [op |-> "setMain", a |-> H.x, k |-> ""] >>)
        ELSE Pop
     /\ lab' = Silent
-    /\ UNCHANGED <<prog, phase, now, tickn, pending, ready, more, cur, fs, store, entered, crashed, sweeps>>
+    /\ UNCHANGED <<stamps, xstore, marks, prog, phase, now, tickn, pending, ready, more, cur, fs, store, entered, crashed, sweeps>>
 
 Activate ==
     /\ todo # <<>> /\ H.op = "activate"
     /\ SetF(H.f, [fs[H.f] EXCEPT !.active = H.k, !.actives = Outline(H.k)])
     /\ Pop /\ lab' = Silent
-    /\ UNCHANGED <<prog, phase, now, tickn, pending, ready, more, cur, store, entered, crashed, sweeps>>
+    /\ UNCHANGED <<stamps, xstore, marks, prog, phase, now, tickn, pending, ready, more, cur, store, entered, crashed, sweeps>>
 
 (* ---- one framer run: segue (clocks, auxiliaries' transitions, own transitions) then recur ---- *)
 Segue ==
@@ -391,14 +495,14 @@ Segue ==
                           [j \in 1..Len(AuxesOf(ks[i])) |-> [op |-> "segue", f |-> AuxesOf(ks[i])[j]]]])
                \o << [op |-> "precur", f |-> f, ks |-> ks, j |-> 1] >>)
     /\ lab' = Silent
-    /\ UNCHANGED <<prog, phase, now, tickn, pending, ready, more, cur, store, entered, crashed, sweeps>>
+    /\ UNCHANGED <<stamps, xstore, marks, prog, phase, now, tickn, pending, ready, more, cur, store, entered, crashed, sweeps>>
 
 Recur ==
     /\ todo # <<>> /\ H.op = "recur"
     /\ LET f == H.f  ks == fs[f].actives IN
        Push([i \in 1..Len(ks) |-> [op |-> "recurFrame", f |-> f, k |-> ks[i]]])
     /\ lab' = Silent
-    /\ UNCHANGED <<prog, phase, now, tickn, pending, ready, more, cur, fs, store, entered, crashed, sweeps>>
+    /\ UNCHANGED <<stamps, xstore, marks, prog, phase, now, tickn, pending, ready, more, cur, fs, store, entered, crashed, sweeps>>
 
 \* recur actions of the frame, then each plain auxiliary recurs right after
 RecurFrame ==
@@ -406,17 +510,21 @@ RecurFrame ==
     /\ LET f == H.f  k == H.k  as == AuxesOf(k) IN
        Push(ActOps(f, k, "recur") \o [i \in 1..Len(as) |-> [op |-> "recur", f |-> as[i]]])
     /\ lab' = Silent
-    /\ UNCHANGED <<prog, phase, now, tickn, pending, ready, more, cur, fs, store, entered, crashed, sweeps>>
+    /\ UNCHANGED <<stamps, xstore, marks, prog, phase, now, tickn, pending, ready, more, cur, fs, store, entered, crashed, sweeps>>
 
 \* Precur walk: frames top-down, each frame's precur acts in order; the first interrupter that fires
 \* (a transition taken, a conditional auxiliary running) ends the walk for this run.
-PrecurWalk ==
-    /\ todo # <<>> /\ H.op = "precur"
+\* (the parameter c only names the deciding case of a marker condition, for the vacuity guards)
+HeadCase == IF H.ks = <<>> THEN "plain"
+            ELSE IF H.j > Len(Fr(Head(H.ks)).precur) THEN "plain" ELSE GoCase(Head(H.ks), Fr(Head(H.ks)).precur[H.j])
+AtCase(c) == /\ todo # <<>> /\ H.op = "precur"
+             /\ (IF DOMAIN marks = {} THEN "plain" ELSE HeadCase) = c
+PrecurBody ==
     /\ LET f == H.f  ks == H.ks  j == H.j IN
-       IF ks = <<>> THEN Pop /\ UNCHANGED fs
+       IF ks = <<>> THEN Pop /\ UNCHANGED <<fs, marks>>
        ELSE LET k == Head(ks)  acts == Fr(k).precur IN
             IF j > Len(acts)
-            THEN Push(<< [op |-> "precur", f |-> f, ks |-> Tail(ks), j |-> 1] >>) /\ UNCHANGED fs
+            THEN Push(<< [op |-> "precur", f |-> f, ks |-> Tail(ks), j |-> 1] >>) /\ UNCHANGED <<fs, marks>>
             ELSE LET a == acts[j]
                      cont == [op |-> "precur", f |-> f, ks |-> ks, j |-> j + 1] IN
                  CASE a.k = "go" ->
@@ -425,8 +533,11 @@ PrecurWalk ==
                             exits == Exits(nears, far)
                             enters == Enters(nears, far)
                             reex == Reexens(nears, far) IN
-                        IF AllNeeds(f, a.needs) /\ CanEnter(enters, exits)
-                        THEN \* transit acts, exits bottom-up, re-exits bottom-up, re-enters top-down, enters, activate
+                        \E ok \in (IF DOMAIN marks = {} THEN {AllNeeds(f, a.needs)} ELSE NeedsOut(f, k, a.needs)) :
+                        IF ok /\ CanEnter(enters, exits)
+                        THEN \* transit acts (the marks guarding this transition are set), exits bottom-up,
+                             \* re-exits bottom-up, re-enters top-down, enters, activate
+                             /\ marks' = IF DOMAIN marks = {} THEN marks ELSE ResetMarks(MarkIdsIn(k, a.needs), "transit")
                              /\ Push([i \in 1..Len(a.transit) |-> [op |-> "tract", f |-> f, k |-> k, j |-> j, i |-> i]]
                                      \o [i \in 1..Len(exits) |-> [op |-> "exitFrame", f |-> f, k |-> Reverse(exits)[i]]]
                                      \o Flatten([i \in 1..Len(reex) |-> ActOps(f, Reverse(reex)[i], "rexit")])
@@ -434,7 +545,7 @@ PrecurWalk ==
                                      \o << [op |-> "enterFrames", f |-> f, ks |-> enters],
                                            [op |-> "activate", f |-> f, k |-> far] >>)
                              /\ UNCHANGED fs
-                        ELSE Push(<<cont>>) /\ UNCHANGED fs
+                        ELSE Push(<<cont>>) /\ UNCHANGED <<fs, marks>>
                    [] a.k = "auxif" ->
                         LET x == a.aux IN
                         IF fs[x].done
@@ -443,20 +554,39 @@ PrecurWalk ==
                              THEN /\ Push(<< [op |-> "setMain", a |-> x, k |-> k],
                                              [op |-> "enterAll", f |-> x], [op |-> "recur", f |-> x],
                                              [op |-> "suspend", f |-> f, k |-> k, x |-> x, first |-> TRUE, cont |-> cont] >>)
-                                  /\ UNCHANGED fs
-                             ELSE Push(<<cont>>) /\ UNCHANGED fs
+                                  /\ UNCHANGED <<fs, marks>>
+                             ELSE Push(<<cont>>) /\ UNCHANGED <<fs, marks>>
                         ELSE IF fs[x].main = k
                         THEN \* running under this frame: it runs every tick regardless of its conditions
                              /\ Push(<< [op |-> "segue", f |-> x], [op |-> "recur", f |-> x],
                                         [op |-> "suspend", f |-> f, k |-> k, x |-> x, first |-> FALSE, cont |-> cont] >>)
-                             /\ UNCHANGED fs
+                             /\ UNCHANGED <<fs, marks>>
                         ELSE \* running under another frame: never active under two frames at once
-                             Push(<<cont>>) /\ UNCHANGED fs
+                             Push(<<cont>>) /\ UNCHANGED <<fs, marks>>
                    [] OTHER ->
                         \* an ordinary action placed in the precur context
-                        Push(<< [op |-> "act", f |-> f, k |-> k, ctx |-> "precur", i |-> j], cont >>) /\ UNCHANGED fs
-    /\ lab' = Silent
-    /\ UNCHANGED <<prog, phase, now, tickn, pending, ready, more, cur, store, entered, crashed, sweeps>>
+                        Push(<< [op |-> "act", f |-> f, k |-> k, ctx |-> "precur", i |-> j], cont >>) /\ UNCHANGED <<fs, marks>>
+    \* (silent; the label only remembers which case decided a marker condition, for the vacuity guards)
+    /\ lab' = IF DOMAIN marks = {} THEN Silent
+              ELSE IF HeadCase = "plain" THEN Silent ELSE [k |-> "silent", case |-> HeadCase]
+    /\ UNCHANGED <<stamps, xstore, prog, phase, now, tickn, pending, ready, more, cur, store, entered, crashed, sweeps>>
+
+PrecurWalk   == AtCase("plain") /\ PrecurBody
+\* transitions guarded by an `is updated` condition, by the case of the statement that decides it
+GoUpdNever   == AtCase("never") /\ PrecurBody
+GoUpdFirst   == AtCase("first") /\ PrecurBody
+GoUpdLater   == AtCase("later") /\ PrecurBody
+GoUpdEarlier == AtCase("earlier") /\ PrecurBody
+GoUpdEntry   == AtCase("entry") /\ PrecurBody
+GoUpdTransit == AtCase("transit") /\ PrecurBody
+GoUpdBoth    == AtCase("both") /\ PrecurBody
+\* ... by an `is changed` condition
+GoChgNoSnap  == AtCase("nosnap") /\ PrecurBody
+GoChgDiffers == AtCase("differs") /\ PrecurBody
+GoChgSame    == AtCase("same") /\ PrecurBody
+GoChgAdded   == AtCase("added") /\ PrecurBody
+MarkedGo == GoUpdNever \/ GoUpdFirst \/ GoUpdLater \/ GoUpdEarlier \/ GoUpdEntry \/ GoUpdTransit \/ GoUpdBoth
+            \/ GoChgNoSnap \/ GoChgDiffers \/ GoChgSame \/ GoChgAdded
 
 \* after a conditional auxiliary ran: complete -> exit it, release it, restore the suspended frames
 \* (which resume in this same run); not complete -> the frames below its main frame are suspended.
@@ -472,7 +602,7 @@ Suspend(resume) ==
        ELSE /\ SetF(f, [fs[f] EXCEPT !.actives = HeadOf(k)])
             /\ Pop       \* interrupter fired: the precur walk ends here (cont is dropped)
     /\ lab' = Silent
-    /\ UNCHANGED <<prog, phase, now, tickn, pending, ready, more, cur, store, entered, crashed, sweeps>>
+    /\ UNCHANGED <<stamps, xstore, marks, prog, phase, now, tickn, pending, ready, more, cur, store, entered, crashed, sweeps>>
 
 Reactivate ==
     /\ todo # <<>> /\ H.op = "reactivate"
@@ -484,7 +614,7 @@ Reactivate ==
        /\ SetF(f, [fs[f] EXCEPT !.actives = full])
        /\ Push(<< IF H.resume /\ ~H.first THEN [c EXCEPT !.ks = @ \o below] ELSE c >>)
     /\ lab' = Silent
-    /\ UNCHANGED <<prog, phase, now, tickn, pending, ready, more, cur, store, entered, crashed, sweeps>>
+    /\ UNCHANGED <<stamps, xstore, marks, prog, phase, now, tickn, pending, ready, more, cur, store, entered, crashed, sweeps>>
 
 (* ---- actions ---- *)
 Targets(f, who) ==
@@ -505,30 +635,34 @@ DoAct ==
            a == IF H.op = "act" THEN Fr(k)[H.ctx][H.i] ELSE Fr(k).precur[H.j].transit[H.i]
            ctx == IF H.op = "act" THEN H.ctx ELSE "transit" IN
        CASE a.k = "rec" ->
-              /\ Pop /\ UNCHANGED <<fs, store, phase, pending, ready, crashed>>
+              /\ Pop /\ UNCHANGED <<fs, store, stamps, xstore, phase, pending, ready, crashed>>
               /\ lab' = [k |-> "Rec", framer |-> f, frame |-> Fr(k).name, ctx |-> ctx, tag |-> a.tag]
          [] a.k = "put" ->
-              /\ store' = [store EXCEPT ![a.share] = a.val]
-              /\ Pop /\ lab' = Silent /\ UNCHANGED <<fs, phase, pending, ready, crashed>>
+              /\ store' = [store EXCEPT ![a.share] = a.val] /\ stamps' = Stamped({a.share})
+              /\ Pop /\ lab' = Silent /\ UNCHANGED <<fs, xstore, phase, pending, ready, crashed>>
+         [] a.k = "putf" ->
+              \* a put into another field of the share: the field is created if absent; the share is stamped
+              /\ xstore' = [xstore EXCEPT ![a.share] = [has |-> TRUE, v |-> a.val]] /\ stamps' = Stamped({a.share})
+              /\ Pop /\ lab' = Silent /\ UNCHANGED <<fs, store, phase, pending, ready, crashed>>
          [] a.k = "inc" ->
-              /\ store' = [store EXCEPT ![a.share] = @ + a.by]
-              /\ Pop /\ lab' = Silent /\ UNCHANGED <<fs, phase, pending, ready, crashed>>
+              /\ store' = [store EXCEPT ![a.share] = @ + a.by] /\ stamps' = Stamped({a.share})
+              /\ Pop /\ lab' = Silent /\ UNCHANGED <<fs, xstore, phase, pending, ready, crashed>>
          [] a.k = "copy" ->
-              /\ store' = [store EXCEPT ![a.dst] = store[a.src]]
-              /\ Pop /\ lab' = Silent /\ UNCHANGED <<fs, phase, pending, ready, crashed>>
+              /\ store' = [store EXCEPT ![a.dst] = store[a.src]] /\ stamps' = Stamped({a.dst})
+              /\ Pop /\ lab' = Silent /\ UNCHANGED <<fs, xstore, phase, pending, ready, crashed>>
          [] a.k = "bid" ->
               /\ fs' = BidAll(fs, Targets(f, a.who), a.ctl, a.period)
-              /\ Pop /\ lab' = Silent /\ UNCHANGED <<store, phase, pending, ready, crashed>>
+              /\ Pop /\ lab' = Silent /\ UNCHANGED <<store, stamps, xstore, phase, pending, ready, crashed>>
          [] a.k = "done" ->
               /\ fs' = [fs EXCEPT ![IF a.who = "me" THEN f ELSE a.who].done = TRUE]
-              /\ Pop /\ lab' = Silent /\ UNCHANGED <<store, phase, pending, ready, crashed>>
+              /\ Pop /\ lab' = Silent /\ UNCHANGED <<store, stamps, xstore, phase, pending, ready, crashed>>
          [] a.k = "fiat" ->
               \* a fiat drives a slave's runner directly, inside the current run
               \* and reports whether the requested state was reached
               /\ Push(<< [op |-> "run", t |-> a.who, ctl |-> a.ctl],
                          [op |-> "yield", t |-> a.who, ctl |-> a.ctl, top |-> FALSE],
                          [op |-> "fiatRet", t |-> a.who, ctl |-> a.ctl] >>)
-              /\ lab' = Silent /\ UNCHANGED <<fs, store, phase, pending, ready, crashed>>
+              /\ lab' = Silent /\ UNCHANGED <<fs, store, stamps, xstore, phase, pending, ready, crashed>>
          [] a.k = "raise" ->
               \* an exception (or a keyboard interrupt) out of an action unwinds the whole run of the
               \* tasker the skedder is dispatching: that tasker is dead (aborted, not requeued); the loop
@@ -538,8 +672,8 @@ DoAct ==
               /\ phase' = "sweep" /\ pending' = pending \o ready /\ ready' = <<>>
               /\ crashed' = a.what
               /\ lab' = [k |-> "Raise", what |-> a.what]
-              /\ UNCHANGED store
-    /\ UNCHANGED <<prog, now, tickn, more, cur, entered, sweeps>>
+              /\ UNCHANGED <<store, stamps, xstore>>
+    /\ UNCHANGED <<marks, prog, now, tickn, more, cur, entered, sweeps>>
 
 
 (* ------------------------------------------------------------------------------------------ *)
@@ -589,21 +723,32 @@ ScheduledOnce == \A i, j \in 1..Len(pending \o ready) :
 AbortedNotScheduled == (Quiescent /\ phase = "between") =>
     \A i \in 1..Len(ready) : fs[ready[i].t].status # "aborted"
 
+\* C20: stamps and marks never run ahead of the store time
+MarksSane == /\ \A s \in DOMAIN stamps : stamps[s] <= now
+             /\ \A id \in DOMAIN marks : marks[id].es <= now /\ marks[id].ts <= now
+\* C20: a transition guarded by `is updated` taken in this tick is not taken again for the same update:
+\* right after a taken-transition reset with no entry reset in the tick the condition can only be false
+\* until the share is written at a later time
+TransitQuiets == \A id \in DOMAIN marks :
+    (id[1] = "updated" /\ marks[id].ts = now /\ marks[id].es # now /\ stamps[id[2]] <= now) => UpdatedOut(id) = {FALSE}
+
 Reached(ctl) == CASE ctl = "ready" -> "readied" [] ctl = "start" -> "started" [] ctl = "run" -> "running"
                   [] ctl = "stop" -> "stopped" [] ctl = "abort" -> "aborted"
 FiatRet ==
     /\ todo # <<>> /\ H.op = "fiatRet"
     /\ Pop
     /\ lab' = [k |-> "Fiat", t |-> H.t, ctl |-> H.ctl, ok |-> (fs[H.t].status = Reached(H.ctl))]
-    /\ UNCHANGED <<prog, phase, now, tickn, pending, ready, more, cur, fs, store, entered, crashed, sweeps>>
+    /\ UNCHANGED <<stamps, xstore, marks, prog, phase, now, tickn, pending, ready, more, cur, fs, store, entered, crashed, sweeps>>
 
 MachineStep == FiatRet \/ RunOp \/ SetStatus \/ Yield \/ EnterAll \/ EnterFrames \/ EnterFrame \/ SetMain \/ ExitAll
-               \/ Deactivate \/ (\E b \in BOOLEAN : ExitFrame(b)) \/ ForceExit \/ Activate \/ Segue \/ Recur \/ RecurFrame \/ PrecurWalk
+               \/ Deactivate \/ (\E b \in BOOLEAN : ExitFrame(b)) \/ ForceExit \/ Activate \/ Segue \/ Recur \/ RecurFrame \/ PrecurWalk \/ MarkedGo
                \/ (\E b \in BOOLEAN : Suspend(b)) \/ Reactivate \/ DoAct \/ Requeue
 
-EnvVals == {0, 1}
+\* values the environment may write into an input share
+EnvValsOf(s) == IF "envvals" \in DOMAIN prog THEN Range(prog.envvals[s]) ELSE {0, 1}
 Core == StartRun \/ Dispatch \/ EndTick \/ NextTick \/ Sweep \/ EndRun \/ MachineStep \/ Interrupt
-Next == Core \/ (\E s \in Range(prog.inputs), v \in EnvVals : EnvSet(s, v))
+Next == Core \/ (\E s \in Range(prog.inputs) : \E v \in EnvValsOf(s) : EnvSet(s, v))
+             \/ (\E s \in FieldedShares : \E v \in {0, 1} : EnvSetF(s, v))
 
 Spec == Init /\ [][Next]_vars
 =============================================================================
